@@ -125,7 +125,7 @@ def r6(ctx, P, G, T, reach):
                 ok, how = IR.safe(fn, nd['k'][1], ev, b, nd['extent'])
                 ctx.ob('C10.6', bool(ok), fn.name, 'table %s' % show(nd)[:60], '%s:%d' % (fn.file, nd.get('ln', 0)),
                        'extent %d: %s' % (nd['extent'], how))
-    ctx.floor('table subscripts', n, 4)
+    ctx.floor('table subscripts', n, 2)
 
 
 # --------------------------------------------------------------------------- resources
@@ -577,46 +577,15 @@ def _is_max(P, g, fd):
             for b in (0, 1, 7, 4294967295):
                 if fd.call(g, [a, b]) != max(a, b):
                     ok = False
-    except Top:
+    except (Top, ZeroDivisionError):
         ok = False
     _max_memo[g.name] = ok
     return ok
 
 
 def r11(ctx, P):
-    fd = FD(P)
-    n = 0
-    for fname in ('jls_core_signal_def_align', 'round_up_to_multiple'):
-        f = P.fn(fname)
-        ctx.saw(f)
-        seen = set()
-        for b in f.blocks.values():
-            items = [(ev.e, ev) for ev in b.events if ev.e is not None]
-            if b.cond is not None:
-                items.append((b.cond, None))
-            for e, ev in items:
-                for nd in walk(e):
-                    if nd.get('op') == 'bin' and nd['o'] in ('/', '%', '/=', '%=') and nd['id'] not in seen:
-                        seen.add(nd['id'])
-                        if nd.get('t', '').startswith('f'):
-                            continue
-                        n += 1
-                        ok, how = divisor_ok(P, f, nd, ev, b, fd)
-                        if not ok and fname == 'round_up_to_multiple':
-                            # parameter: every caller must pass a non-zero divisor
-                            d = strip_casts(nd['k'][1])
-                            pi = [i for i, p in enumerate(f.params) if p['name'] == d.get('name')]
-                            if pi:
-                                bad = []
-                                for cf, cev in P.callers().get(fname, []):
-                                    fake = {'op': 'bin', 'o': '/', 'k': [cev.args[0], cev.args[pi[0]]], 'id': -1}
-                                    ok2, how2 = divisor_ok(P, cf, fake, cev, cev.block, fd)
-                                    if not ok2:
-                                        bad.append('%s: %s' % (cev.where(), how2))
-                                ok = not bad
-                                how = 'every caller passes a non-zero divisor' if ok else 'caller passes a divisor that can be 0: ' + '; '.join(bad[:2])
-                        ctx.ob('C10.11', ok, f.name, 'divisor of `%s`' % show(nd)[:60], '%s:%d' % (f.file, nd.get('ln', 0)), how)
-    ctx.floor('divisions in definition normalisation', n, 5)
+    from .defnorm import check_divisors
+    check_divisors(ctx, 'C10.11', P)
 
 
 def r12(ctx, P):
